@@ -5,6 +5,7 @@ import (
 	"flag"
 	"fmt"
 	"io"
+	"math"
 	"os"
 	"sort"
 
@@ -200,7 +201,10 @@ func cropToTime(inMP4 *mp4.File, endTime, endTimescale uint64, w io.Writer, ifh 
 	if err != nil {
 		return err
 	}
-	updateChunkOffsets(inMP4, firstOffset)
+	err = updateChunkOffsets(inMP4, firstOffset)
+	if err != nil {
+		return err
+	}
 
 	err = writeUptoMdat(inMP4, endTime, endTimescale, w)
 	if err != nil {
@@ -316,7 +320,7 @@ func fillTrakOutsAndByteRanges(traks []*mp4.TrakBox, tos map[uint32]*trakOut, by
 }
 
 // updateChunkOffsets - calculate new moov size, and update stco/co64 (chunk offsets)
-func updateChunkOffsets(inMP4 *mp4.File, firstOffset uint64) {
+func updateChunkOffsets(inMP4 *mp4.File, firstOffset uint64) error {
 	var sizeWithoutMdat uint64 = 0
 	for _, box := range inMP4.Children {
 		if box.Type() != "mdat" {
@@ -330,7 +334,12 @@ func updateChunkOffsets(inMP4 *mp4.File, firstOffset uint64) {
 		stco := trak.Mdia.Minf.Stbl.Stco
 		if stco != nil {
 			for i := range stco.ChunkOffset {
-				stco.ChunkOffset[i] = uint32(int64(stco.ChunkOffset[i]) + deltaOffset)
+				newOffset := int64(stco.ChunkOffset[i]) + deltaOffset
+				if newOffset < 0 || newOffset > math.MaxUint32 {
+					return fmt.Errorf("new chunk offset %d of track %d does not fit in a 32-bit stco box",
+						newOffset, trak.Tkhd.TrackID)
+				}
+				stco.ChunkOffset[i] = uint32(newOffset)
 			}
 		} else {
 			co64 := trak.Mdia.Minf.Stbl.Co64
@@ -339,6 +348,7 @@ func updateChunkOffsets(inMP4 *mp4.File, firstOffset uint64) {
 			}
 		}
 	}
+	return nil
 }
 
 func writeUptoMdat(inMP4 *mp4.File, endTime, endTimescale uint64, w io.Writer) error {
@@ -428,13 +438,16 @@ func cropStblChildren(traks []*mp4.TrakBox, trakOuts map[uint32]*trakOut) (err e
 			case "sdtp":
 				cropSdtp(ch.(*mp4.SdtpBox), to.lastSampleNr)
 			case "stco":
-				updateStco(ch.(*mp4.StcoBox), to.chunkOffsets)
+				err = updateStco(ch.(*mp4.StcoBox), to.chunkOffsets)
 			case "co64":
 				updateCo64(ch.(*mp4.Co64Box), to.chunkOffsets)
 			}
+			if err != nil {
+				return err
+			}
 		}
 	}
-	return err
+	return nil
 }
 
 func cropStts(b *mp4.SttsBox, lastSampleNr uint32) {
@@ -517,11 +530,15 @@ func cropSdtp(b *mp4.SdtpBox, lastSampleNr uint32) {
 	}
 }
 
-func updateStco(b *mp4.StcoBox, offsets []uint64) {
+func updateStco(b *mp4.StcoBox, offsets []uint64) error {
 	b.ChunkOffset = make([]uint32, len(offsets))
 	for i := range offsets {
+		if offsets[i] > math.MaxUint32 {
+			return fmt.Errorf("chunk offset %d does not fit in a 32-bit stco box", offsets[i])
+		}
 		b.ChunkOffset[i] = uint32(offsets[i])
 	}
+	return nil
 }
 
 func updateCo64(b *mp4.Co64Box, offsets []uint64) {
